@@ -1,20 +1,18 @@
 """Known findings: /verif/known_findings.json is committed and never written at run time.
-An entry {property, status: "known"|"fixed", matcher, description, ...} suppresses a violation only when
-status is "known" and the named matcher recognises the specific failing input/record."""
+An entry {property, status: "known"|"fixed", tag | matcher, description} suppresses a violation only when
+status is "known" and either the specification itself classified the violation with the entry's tag
+(the classification is part of the TLA+ invariant, e.g. TraceNet!InvC17) or the named matcher recognises
+the specific failing record."""
+
+MATCHERS = {}
 
 
-def _junk_failed_unsigned(rec, recs):
-    # C03 finding fixed in /repo: kept for documentation, never suppresses
-    return False
-
-
-MATCHERS = {"junk_failed_unsigned": _junk_failed_unsigned}
-
-
-def match(kf, pid, rec, recs):
+def match(kf, pid, tag, rec, recs):
     for f in kf.get("findings", []):
         if f.get("property") != pid or f.get("status") != "known":
             continue
+        if f.get("tag") and tag and f["tag"] == tag:
+            return f.get("description", tag)
         m = MATCHERS.get(f.get("matcher", ""))
         if m and rec is not None and m(rec, recs):
             return f.get("description", f.get("matcher"))
